@@ -27,12 +27,24 @@ func (transScenario) Config(r *rand.Rand, small bool) string {
 	for i := range ops {
 		ops[i] = "OCFS"[r.Intn(4)] // OpenCircuit, CloseCircuit, Failing call, Succeeding call
 	}
+	fo0 := 0
 	if !small && r.Intn(3) == 0 {
-		// an operator override switched on while calls are in flight: ForceOpen makes IsOpen() true without any
-		// transition, so no notification may result from it (such configurations have no K2 model: flags are static there)
-		ops[r.Intn(k)] = 'X'
+		// an operator override switched while calls are in flight: ForceOpen on ('X'), ForcedClosed on ('Y'), or — with the
+		// kill switch ON when the race starts — both overrides off ('Z').  An override makes IsOpen() answer without any
+		// transition, so no notification may result from the switch itself, and a transition racing it must behave as
+		// under the old or under the new setting: in particular it never announces Opened for an open circuit or Closed
+		// for a closed one (such configurations have no K2 model: flags are static there)
+		switch r.Intn(3) {
+		case 0:
+			ops[r.Intn(k)] = 'X'
+		case 1:
+			ops[r.Intn(k)] = 'Y'
+		default:
+			ops[r.Intn(k)] = 'Z'
+			fo0 = 1
+		}
 	}
-	return fmt.Sprintf("init=%d ops=%s", r.Intn(2), ops)
+	return fmt.Sprintf("init=%d fo0=%d ops=%s", r.Intn(2), fo0, ops)
 }
 
 type yesOpener struct{ log *[]string }
